@@ -26,6 +26,12 @@ func NewWorld() *World {
 }
 func (w *World) NextAddr() *net.UDPAddr { w.port++; return Addr("10.0.0.1", w.port) }
 
+// NextAddr6: a fresh genuine (not IPv4-mapped) IPv6 source address.
+func (w *World) NextAddr6() *net.UDPAddr {
+	w.port++
+	return Addr(fmt.Sprintf("2001:db8::%x", w.port), w.port)
+}
+
 type counterpart struct {
 	id         *Ident
 	authorized bool // its certified key is in the verifier's authorized set
